@@ -246,7 +246,7 @@ def run(ctx):
             continue
         files.append(("corpus|" + os.path.relpath(c.inp, os.path.join(corpus.REPO, "tests/input")), b, c.lang or corpus.lang_of(c.inp)))
         k += 1
-    cfgbases = ["", "indent_columns=3\nindent_with_tabs=0\ncmt_indent_multi=true\nnl_max=2\n"]
+    cfgbases = ["", "indent_columns=3\nindent_with_tabs=0\ncmt_indent_multi=true\nnl_max=2\nsp_compare=force\nsp_arith=force\nsp_assign=force\nsp_after_comma=force\n"]
     fjobs = []
     for i, (jid, b, lang) in enumerate(files):
         for ci, cb in enumerate(cfgbases if (not quick or not jid.startswith("corpus")) else cfgbases[:1]):
